@@ -16,7 +16,7 @@ try:
     print("demo with the change: exit", r1.returncode, (r1.stdout + r1.stderr).strip().splitlines()[-1:] )
     for p in props:
         t = time.time()
-        r = subprocess.run([os.path.join(V, "check"), tier, p], capture_output=True, text=True, env=dict(os.environ, VERIF_QUIET="1"))
+        r = subprocess.run([os.path.join(V, "check"), tier, p], capture_output=True, text=True, env=dict(os.environ, VERIF_QUIET="1", VERIF_EVIDENCE_DIR=os.path.join("/verif", ".work", "evidence")))
         viol = [l for l in r.stdout.splitlines() if l.startswith("VIOLATION")]
         print("check %s %s: exit %d, %d VIOLATION lines, %.0fs" % (tier, p, r.returncode, len(viol), time.time() - t))
         for l in r.stdout.splitlines():
